@@ -7,6 +7,7 @@ import (
 	"net/http"
 	"net/http/httptest"
 	"net/url"
+	"os"
 	"strings"
 	"sync"
 
@@ -58,6 +59,10 @@ type matchState struct {
 }
 
 var matchSt = &matchState{}
+
+// VERIF_MATCH_ENCODED=1: the routers use UseEncodedPath and the paths of the model are ESCAPED paths ('%' is a character
+// like any other for the router); the served pass sends them as URL.RawPath. Parameters are the escaped substrings.
+var matchEncoded = os.Getenv("VERIF_MATCH_ENCODED") == "1"
 
 func init() {
 	families["match"] = &family{replay: matchReplay, finish: matchFinish}
@@ -193,6 +198,9 @@ func matchRunTable(st *matchState, t matchTable) {
 		b := &built{name: name, passes: passes}
 		if st.hdr.Strict {
 			opts = append(opts, rux.StrictLastSlash)
+		}
+		if matchEncoded {
+			opts = append(opts, rux.UseEncodedPath)
 		}
 		b.r = newRouter(opts...)
 		for i, e := range t.T {
@@ -332,6 +340,16 @@ func matchRunTable(st *matchState, t matchTable) {
 						continue
 					}
 					req := &http.Request{Method: m, URL: &url.URL{Path: path}, Header: http.Header{}, Proto: "HTTP/1.1"}
+					if matchEncoded {
+						dec, err := url.PathUnescape(path)
+						if err != nil || via == "redispatch" {
+							continue // not a valid escaping: no client can send it
+						}
+						req.URL = &url.URL{Path: dec, RawPath: path}
+						if req.URL.EscapedPath() != path {
+							continue // net/url would re-encode it, the router never sees this spelling
+						}
+					}
 					if via == "redispatch" {
 						req = &http.Request{Method: prevM, URL: &url.URL{Path: prevPath}, Proto: "HTTP/1.1",
 							Header: http.Header{"X-Redisp-Path": {path}, "X-Redisp-Method": {m}}}
